@@ -55,7 +55,7 @@ func (x *Exec) choose(name string, n int) int {
 	v := x.fresh("(_ BitVec 8)", name)
 	x.sol.send(fmt.Sprintf("(assert (bvult %s (_ bv%d 8)))\n", v, n))
 	for k := 0; k < n-1; k++ {
-		if x.decide(fmt.Sprintf("(= %s (_ bv%d 8))", v, k)) {
+		if x.decideFree(fmt.Sprintf("(= %s (_ bv%d 8))", v, k), true) {
 			return k
 		}
 	}
@@ -142,7 +142,7 @@ func (x *Exec) lazyIs(l *Lazy, k int) bool {
 		return false
 	}
 	v := x.kindVar(l)
-	if x.decide(fmt.Sprintf("(= %s (_ bv%d 8))", v, k)) {
+	if x.decideFree(fmt.Sprintf("(= %s (_ bv%d 8))", v, k), true) {
 		x.materialize(l, k)
 		return true
 	}
@@ -246,7 +246,7 @@ func (x *Exec) decideKey(m *Map, k string) {
 	}
 	m.Pend = append(append([]string{}, m.Pend[:idx]...), m.Pend[idx+1:]...)
 	p := Bool{T: x.fresh("Bool", fmt.Sprintf("has%d_%x", m.PID, k))}
-	if x.truth(p) {
+	if x.decideFree(p.T, true) {
 		m.Keys = append(append([]Val{}, m.Keys...), strOf(k))
 		m.Vals = append(append([]Val{}, m.Vals...), x.newLazy(m.PDepth))
 	}
